@@ -64,6 +64,18 @@ def inject(expr_src: str, values: Dict[str, Any]):
     return tree
 
 
+def inject_tree(tree, values: Dict[str, Any]):
+    """Same as inject() for an already parsed tree (e.g. Section.filter_ast)."""
+    for node in ast.walk(tree):
+        if isinstance(node, ast.Constant):
+            v = node.value
+            if isinstance(v, bool):
+                continue
+            if (isinstance(v, (str, int, float))) and v in values:
+                node.value = values[v]
+    return tree
+
+
 def const_true_false(expr_src: str, value):
     """Make the whole cached tree of `expr_src` evaluate to `value`: the body becomes a Constant
     holding it (truth-vector abstraction)."""
